@@ -182,3 +182,16 @@ Theorem C13_malformed_rule_of_active_validator_fails_process : forall a p ms tb 
   main_exit (main_model a ms tb cd) <> 0.
 Proof. exact malformed_rule_active_fails_main. Qed.
 Print Assumptions C13_malformed_rule_of_active_validator_fails_process.
+
+(* Through main: the malformed rule of a detected validator leaves a non-empty error list, and (when the validator's pre-pass is clean) that very error is in it - the failure is reported, not only signalled by the status. *)
+Theorem C13_malformed_rule_error_is_in_the_report : forall a p ms tb cd v f bc e,
+  plan_of a = Ok p -> ca_list a = false ->
+  let cr := model_context (main_case a p ms tb cd) in
+  cr_panic cr = false -> cr_errs cr = [] ->
+  In f (cr_ctx cr) -> In bc (fc_blocks f) ->
+  validate_block (oracles_of tb) (named_modified (cr_ctx cr)) v f bc = Err e ->
+  In v (detected_validators (pl_enabled p) (pl_disabled p) (cr_ctx cr)) ->
+  exists r, main_model a ms tb cd = MRun r /\ vr_errs r <> [] /\
+            (prepass_errs v (cr_ctx cr) = [] -> In e (vr_errs r)).
+Proof. exact malformed_rule_error_reported. Qed.
+Print Assumptions C13_malformed_rule_error_is_in_the_report.
